@@ -625,15 +625,17 @@ func genV2Pkt(r *Rng, b *sb) int {
 		b.addn(uint64(r.Pick(0, 0xffffffff, 0xfffffffe, 5)))
 		if r.Chance(22) { // an issuance is already attached
 			val, keys := issGenAmount(r), issGenAmount(r)
+			// commitments are set independently of each other and of the explicit amounts
+			// (a blinded issuance keeps or drops the explicit amount; either side may be absent)
 			b.addn(val)
-			if val == 0 && r.Chance(40) {
-				b.add(hx(append([]byte{8}, r.Bytes(32)...)))
+			if r.Chance(40) {
+				b.add(hx(append([]byte{byte(r.Pick(8, 9))}, r.Bytes(32)...)))
 			} else {
 				b.add("nil")
 			}
 			b.addn(keys)
-			if keys == 0 && r.Chance(30) {
-				b.add(hx(append([]byte{9}, r.Bytes(32)...)))
+			if r.Chance(40) {
+				b.add(hx(append([]byte{byte(r.Pick(8, 9))}, r.Bytes(32)...)))
 			} else {
 				b.add("nil")
 			}
@@ -753,6 +755,13 @@ func readV2Pkt(t *Toks) *psetv2.Pset {
 		in.IssuanceValueCommitment = t.IssOpt()
 		in.IssuanceInflationKeys = t.U64()
 		in.IssuanceInflationKeysCommitment = t.IssOpt()
+		// Input.SanityCheck wants a blind proof next to a commitment that has its explicit amount
+		if in.IssuanceValue > 0 && len(in.IssuanceValueCommitment) > 0 {
+			in.IssuanceBlindValueProof = []byte{1}
+		}
+		if in.IssuanceInflationKeys > 0 && len(in.IssuanceInflationKeysCommitment) > 0 {
+			in.IssuanceBlindInflationKeysProof = []byte{1}
+		}
 		in.IssuanceBlindingNonce = t.IssOpt()
 		in.IssuanceAssetEntropy = t.IssOpt()
 		switch t.Next() {
